@@ -111,6 +111,9 @@ func getPoolConfig(cfg *daemon.Config, daemonMode string, limit *client.Limits) 
 		if cfg.MinENI > 0 {
 			poolConfig.MinPoolSize = cfg.MinENI * ipPerENI
 		}
+		// a negative pool size is meaningless, treat it as no reserve
+		poolConfig.MaxPoolSize = max(poolConfig.MaxPoolSize, 0)
+		poolConfig.MinPoolSize = max(poolConfig.MinPoolSize, 0)
 		if poolConfig.MinPoolSize > poolConfig.MaxPoolSize {
 			poolConfig.MinPoolSize = poolConfig.MaxPoolSize
 		}
